@@ -387,6 +387,7 @@ structure Sys where
   threads : List Thread
   clean : Bool := true     -- no excluded label was executed so far
   out : List String := []  -- event tokens, newest first
+  stuck : Bool := false    -- a thread was at an impossible program counter, or issued a label that was not enabled (proved never to happen: `Props.never_stuck`)
 
 def cleanLabels : G → List Label → Bool := cleanRun
 
@@ -398,13 +399,13 @@ def tstep (nk : Nat) (y : Sys) (t : Nat) : Sys :=
     match tmove nk y.g th with
     | .finished => { y with out := (toString t ++ ":-/" ++ showRefs y.g nk) :: y.out }
     | .blocked => { y with out := (toString t ++ ":B/" ++ showRefs y.g nk) :: y.out }
-    | .stuck => { y with out := "model-stuck" :: y.out }
+    | .stuck => { y with out := "model-stuck" :: y.out, stuck := true }
     | .go ls th' ev =>
       match runLabels y.g ls with
-      | none => { y with out := "model-stuck" :: y.out }
+      | none => { y with out := "model-stuck" :: y.out, stuck := true }
       | some g' =>
         { g := g', threads := y.threads.set t th', clean := y.clean && cleanLabels y.g ls,
-          out := (toString t ++ ":" ++ ev ++ "/" ++ showRefs g' nk) :: y.out }
+          out := (toString t ++ ":" ++ ev ++ "/" ++ showRefs g' nk) :: y.out, stuck := y.stuck }
 
 def canMove (nk : Nat) (g : G) (th : Thread) : Bool :=
   match tmove nk g th with
